@@ -287,30 +287,14 @@ func MergeErrors(p *load.Prog, r *oblig.Report, rule string) {
 		{"relation", "GetRelationLineNumber"},
 	}
 	n := 0
-	for _, b := range fn.Blocks {
-		for _, in := range b.Instrs {
-			al, ok := in.(*ssa.Alloc)
-			if !ok {
-				continue
-			}
-			t := al.Type().Underlying().(*types.Pointer).Elem()
-			named, ok := t.(*types.Named)
-			if !ok || named.Obj().Name() != "ModuleTransformationSingleError" {
-				continue
-			}
+	{
+		for _, li := range e5path.LiteralInstances(fn, "ModuleTransformationSingleError") {
+			li := li
+			al := li.Pos
 			n++
-			st := named.Underlying().(*types.Struct)
 			fields := map[string]ssa.Value{}
-			if refs := al.Referrers(); refs != nil {
-				for _, ref := range *refs {
-					if fa, ok := ref.(*ssa.FieldAddr); ok && fa.Referrers() != nil {
-						for _, r2 := range *fa.Referrers() {
-							if s2, ok := r2.(*ssa.Store); ok {
-								fields[st.Field(fa.Field).Name()] = s2.Val
-							}
-						}
-					}
-				}
+			for k, v := range li.Fields {
+				fields[k] = li.Arg(v)
 			}
 			msg := messageText(fields["Msg"])
 			construct := "merge-error:" + firstWords(msg)
@@ -351,7 +335,7 @@ func MergeErrors(p *load.Prog, r *oblig.Report, rule string) {
 				r.Bad(rule, construct, pos, "Line/Column do not come from ConstructLineAndColumnData")
 				continue
 			}
-			lines, idx, sym := call.Common().Args[0], call.Common().Args[1], call.Common().Args[2]
+			lines, idx, sym := li.Arg(call.Common().Args[0]), li.Arg(call.Common().Args[1]), li.Arg(call.Common().Args[2])
 			// file/lines pairing
 			linesPath := e5path.AccessPath(lines)
 			pair := false
